@@ -59,6 +59,12 @@ pub fn build(t: &Value) -> BoxSource {
               "map" => {
                 let _ = r.map(&MapOptions::default());
               }
+              "hash" => {
+                use std::hash::{Hash, Hasher};
+                let mut h = std::collections::hash_map::DefaultHasher::new();
+                r.hash(&mut h);
+                let _ = h.finish();
+              }
               _ => {}
             }
           }
@@ -390,7 +396,8 @@ pub fn eqhash(v: &Value) -> Value {
     let ba = b == a.clone();
     let ha = hash_of(&a);
     let hb = hash_of(&b);
-    let c = a.clone();
+    // a clone of the VALUE (not of the Arc handle)
+    let c: BoxSource = std::sync::Arc::from(dyn_clone::clone_box(a.as_ref()));
     let ca = c == a.clone();
     let hc = hash_of(&c);
     json!({"ab": ab, "ba": ba, "hash_a": ha.to_string(), "hash_b": hb.to_string(), "clone_eq": ca, "hash_clone": hc.to_string(),
